@@ -102,6 +102,7 @@ class RefEval:
             return R(RANGE, why=("magnitude", M.text(m)[:80]))
         if q is not None:
             eps = 0.0
+            v = to_mpf(q)
         if not (eps == eps) or eps == math.inf:
             return R(RANGE, why=("eps", M.text(m)[:80]))
         return R(DEFINED, v, q, eps)
